@@ -3,9 +3,11 @@ package props
 import (
 	"fmt"
 	"sort"
+	"strings"
 
 	"verif/mc/bind"
 	"verif/mc/ref/refcodec"
+	"verif/mc/ref/refconv"
 )
 
 // The remaining-length family of the grammar explorer (C01, C03, C04, C10).
@@ -557,6 +559,107 @@ func contentCorpus(spec *refcodec.Spec) []string {
 	return out
 }
 
+// isIdentitySlot: elements whose contents are a mobile identity (TS 24.501 9.11.3.4).
+func isIdentitySlot(name string) bool {
+	for _, k := range []string{"MobileIdentity", "GUTI", "IMEISV", "TMSI"} {
+		if strings.Contains(name, k) && !strings.Contains(name, "MessageIdentity") {
+			return true
+		}
+	}
+	return false
+}
+
+var identityCorpusCache []string
+
+// identityCorpus: mobile identities of every kind — SUCI in IMSI format with every protection scheme 0..15 and every
+// scheme output length 0..48 and 64 (the ECIES profiles have 40- and 41-octet minimum outputs; a check written for one
+// profile meets the other here), SUCI in NAI format with and without a 3GPP realm, 5G-GUTI, 5G-S-TMSI, IMEI, IMEISV,
+// no identity and the reserved types.
+func identityCorpus() []string {
+	if identityCorpusCache != nil {
+		return identityCorpusCache
+	}
+	var out []string
+	add := func(b []byte) { out = append(out, string(b)) }
+	for scheme := 0; scheme < 16; scheme++ {
+		for l := 0; l <= 64; l++ {
+			if l > 48 && l != 64 {
+				continue
+			}
+			o := make([]byte, l)
+			for i := range o {
+				o[i] = byte(0xA0 + i)
+			}
+			if scheme == 0 {
+				msin := strings.Repeat("0123456789", 13)[:2*l]
+				add(refconv.SuciImsiOctets("208", "93", "0", 0, 0, msin, nil))
+				continue
+			}
+			add(refconv.SuciImsiOctets("208", "93", "12", uint8(scheme), 1, "", o))
+		}
+	}
+	add(refconv.SuciNaiOctets([]byte("user@example.org")))
+	add(refconv.SuciNaiOctets([]byte("type0.rid0.schid0.userid1@5gc.mnc093.mcc208.3gppnetwork.org")))
+	add(refconv.SuciNaiOctets([]byte("user@5gc.mcc208.mnc093.3gppnetwork.org")))
+	g := refconv.GutiOctets("208", "93", 0xCAFE40, 0x01020304)
+	add(g[:])
+	st := refconv.STmsiOctets(0x3FA, 5, 0xDEADBEEF)
+	add(st[:])
+	add(refconv.PeiOctets("490154203237518", false))
+	add(refconv.PeiOctets("4901542032375180", true))
+	for t := 0; t < 8; t++ {
+		add([]byte{byte(t), 0x02, 0xF8, 0x39, 0xF0, 0xFF, 0x00, 0x00})
+	}
+	identityCorpusCache = out
+	return out
+}
+
+// ieiConfusion: contents of a length-prefixed element that look like the elements that may follow it. For every
+// length that is also an information element identifier of the message (a length octet that a layout autodetection can
+// take for an identifier) and for the minimum and maximum, the element that follows in table order (the next three) is
+// written into counting contents at every offset.
+func ieiConfusion(m *bind.Msg, i int) []string {
+	s := &m.Slots[i]
+	if s.LenSize == 0 || s.Half || len(s.Alts) > 0 {
+		return nil
+	}
+	lens := map[int]bool{}
+	for j := range m.Slots {
+		if v := m.Slots[j].IEI; m.Slots[j].Optional && !m.Slots[j].Half && v >= s.Min && v <= s.Max && v >= 3 {
+			lens[v] = true
+		}
+	}
+	var ls []int
+	for l := range lens {
+		ls = append(ls, l)
+	}
+	sort.Ints(ls)
+	if len(ls) > 6 {
+		ls = ls[:6]
+	}
+	var follow [][]byte
+	for j := i + 1; j < len(m.Slots) && len(follow) < 3; j++ {
+		if !m.Slots[j].Optional || m.Slots[j].Half {
+			continue
+		}
+		follow = append(follow, renderTok(m, tok{Slot: j, L: m.Slots[j].Min, Pat: 2}))
+	}
+	var out []string
+	for _, l := range ls {
+		for _, f := range follow {
+			for k := 0; k+2 <= l; k++ {
+				b := make([]byte, l)
+				for p := range b {
+					b[p] = byte(p + 1)
+				}
+				copy(b[k:], f)
+				out = append(out, string(b))
+			}
+		}
+	}
+	return out
+}
+
 func (x *codecExplorer) contentFamily(m *bind.Msg) {
 	corpus := contentCorpus(x.spec)
 	base := renderMandatory(m, -1, tok{})
@@ -571,7 +674,14 @@ func (x *codecExplorer) contentFamily(m *bind.Msg) {
 		if !x.c.Begin("contentsweep", m.Name, map[string]any{"msg": m.Name, "slot": s.Name}) {
 			continue
 		}
-		for ci, raw := range corpus {
+		all := corpus
+		if extra := ieiConfusion(m, i); len(extra) > 0 {
+			all = append(append([]string{}, all...), extra...)
+		}
+		if isIdentitySlot(s.Name) {
+			all = append(append([]string{}, all...), identityCorpus()...)
+		}
+		for ci, raw := range all {
 			if ci%32 == 0 {
 				x.c.Tick()
 			}
